@@ -23,9 +23,9 @@ CHECKS = {
     ),
     "C10": dict(
         level="proof",
-        text="Deductive for the candidate clauses: _factorize (result = exactly the divisors, ascending), _divisors, and get_possible_factor_sizes in both modes (perfect: exactly the multiples of inner dividing outer; imperfect: within [1, outer] and, for every tile count reachable by a multiple of inner, the smallest shape with that count) are proved for every size from the real source with loop invariants; nonlinear integer operations are abstracted to uninterpreted symbols in function VCs and every arithmetic fact is a separately proved lemma VC. The mapspace-count clause (_count_factorizations == brute-force chain count) is NOT proved: it is covered only by the bounded cross-check (n < 14 quick / n < 40 thorough, all imperfection patterns of length <= 4, explicit tuple enumeration) and is labelled bounded in the evidence.",
-        note=_TB + "A-FLOATDIV (ceil/round/sqrt of float quotients are exact for the sizes involved); numpy array(sorted(.)) and ndarray*int elementwise; coarseness fixed to 1 (the property's quantifier); _count_factorizations bounded only.",
-        technique="contract-based deductive verification (ast->z3 VCs, loop invariants, lemma VCs for nonlinear arithmetic); bounded run-time cross-check for the counter clause",
+        text="Deductive, all three clauses: _factorize (result = exactly the divisors, ascending), _divisors (the sorted enumeration of the divisor set), get_possible_factor_sizes in both modes (perfect: exactly the multiples of inner dividing outer; imperfect: within [1, outer] and, for every tile count reachable by a multiple of inner, the smallest shape with that count) and _count_factorizations == the brute-force chain count (one contract instance per imperfection pattern of length <= 4, each for every n >= 1; sums handled by a proved extensionality lemma) are proved from the real source with loop invariants; nonlinear integer operations are uninterpreted in function VCs and every arithmetic fact is a separately proved lemma VC. A bounded cross-check of the executable specs against the real functions corroborates the specs.",
+        note=_TB + "A-FLOATDIV (ceil/round/sqrt of float quotients are exact for the sizes involved); numpy array(sorted(.)) and ndarray*int elementwise; sorted(set) is a function of the set; coarseness fixed to 1 and patterns of length <= 4 (the property's quantifier).",
+        technique="contract-based deductive verification (ast->z3 VCs, loop invariants, lemma VCs for nonlinear arithmetic and finite sums); bounded run-time cross-check",
         design_ref="DESIGN 3 C10",
     ),
     "C32": dict(
